@@ -12,6 +12,8 @@ is given is that of the freshly drawn momenta.
 Integrator objects are also used 'second hand' (used for a proposal that is then undone
 from outside, as after a rejected trial); the forced refresh is also run under
 FixAtoms / FixCom / FixedPlane.
+Reversibility runs include rigid bonds; half of the live simulations also carry a single-particle displacement move,
+and every momentum refresh is checked component by component (a component that keeps its value was not drawn).
 """
 from __future__ import annotations
 
